@@ -80,6 +80,7 @@
         let want_tc = p.tile_compression as u8;
         let mut arr = [0x55u8; 200];
         let mut out = FixW::new(&mut arr, pstart);
+        out.end = 200; // the stream is pre-filled: it already has 200 bytes, SeekFrom::End refers to that
         let r = p.to_writer(&mut out);
         assert!(r.is_ok());
         std::mem::forget(r);
@@ -110,7 +111,7 @@
             if i < ps { assert!(arr[i] == 0x55); }
             i += 1;
         }
-        assert!(pos == pstart + 130 && end == pstart + 130);
+        assert!(pos == pstart + 130 && end == 200);
         assert!(arr[ps + 130] == 0x55);
         // C17: the header transfer is the last write, one 127-byte write at P; no earlier write went below P+127
         assert!(lw_pos == pstart && lw_len == 127);
